@@ -157,6 +157,78 @@ pub fn login_read_expect(version: u8, dir: Dir, name: &str, fl: Flavour, rd: &mu
     }
 }
 
+pub fn protocol_version(version: u8) -> Option<wow_login_messages::all::ProtocolVersion> {
+    use wow_login_messages::all::ProtocolVersion as P;
+    Some(match version {
+        2 => P::Two,
+        3 => P::Three,
+        5 => P::Five,
+        6 => P::Six,
+        7 => P::Seven,
+        8 => P::Eight,
+        _ => return None,
+    })
+}
+
+macro_rules! login_read_enum_protocol_one {
+    ($t:ident, $fin:ident, $pv:expr, $fl:expr, $rd:expr, $budget:expr) => {{
+        use wow_login_messages::version_8::opcodes::$t as T;
+        let mut polls = 0u64;
+        let mut exceeded = false;
+        let r: Result<T, ExpectedOpcodeError> = match $fl {
+            Flavour::Sync => T::read_protocol(&mut *$rd, $pv),
+            Flavour::Tokio => run_async_l!(T::tokio_read_protocol(&mut *$rd, $pv), $budget, polls, exceeded, budget_err()),
+            Flavour::Astd => run_async_l!(T::astd_read_protocol(&mut *$rd, $pv), $budget, polls, exceeded, budget_err()),
+        };
+        LoginOut { result: r.map($fin).map_err(|e| errsig_login(&e)), polls, budget_exceeded: exceeded }
+    }};
+}
+
+/// read one message of protocol `version` through the protocol-parameterised reader of the collective (version 8) opcode enum
+pub fn login_read_enum_protocol(version: u8, dir: Dir, fl: Flavour, rd: &mut SimReader<'_>, budget: u64) -> Option<LoginOut> {
+    let pv = protocol_version(version)?;
+    Some(match dir {
+        Dir::Client => login_read_enum_protocol_one!(ClientOpcodeMessage, login_finish_version_8_client, pv, fl, rd, budget),
+        Dir::Server => login_read_enum_protocol_one!(ServerOpcodeMessage, login_finish_version_8_server, pv, fl, rd, budget),
+    })
+}
+
+macro_rules! login_expect_protocol_one {
+    ($ty:path, client, $pv:expr, $fl:expr, $rd:expr, $budget:expr, $fin:expr) => {{
+        use wow_login_messages::helper as H;
+        let mut polls = 0u64;
+        let mut exceeded = false;
+        let r: Result<$ty, ExpectedOpcodeError> = match $fl {
+            Flavour::Sync => H::expect_client_message_protocol::<$ty, _>(&mut *$rd, $pv),
+            Flavour::Tokio => run_async_l!(H::tokio_expect_client_message_protocol::<$ty, _>(&mut *$rd, $pv), $budget, polls, exceeded, budget_err()),
+            Flavour::Astd => run_async_l!(H::astd_expect_client_message_protocol::<$ty, _>(&mut *$rd, $pv), $budget, polls, exceeded, budget_err()),
+        };
+        LoginOut { result: r.map($fin).map_err(|e| errsig_login(&e)), polls, budget_exceeded: exceeded }
+    }};
+    ($ty:path, server, $pv:expr, $fl:expr, $rd:expr, $budget:expr, $fin:expr) => {{
+        use wow_login_messages::helper as H;
+        let mut polls = 0u64;
+        let mut exceeded = false;
+        let r: Result<$ty, ExpectedOpcodeError> = match $fl {
+            Flavour::Sync => H::expect_server_message_protocol::<$ty, _>(&mut *$rd, $pv),
+            Flavour::Tokio => run_async_l!(H::tokio_expect_server_message_protocol::<$ty, _>(&mut *$rd, $pv), $budget, polls, exceeded, budget_err()),
+            Flavour::Astd => run_async_l!(H::astd_expect_server_message_protocol::<$ty, _>(&mut *$rd, $pv), $budget, polls, exceeded, budget_err()),
+        };
+        LoginOut { result: r.map($fin).map_err(|e| errsig_login(&e)), polls, budget_exceeded: exceeded }
+    }};
+}
+
+include!(concat!(env!("OUT_DIR"), "/login_protocol_dispatch.rs"));
+
+/// typed protocol-parameterised expect helper for the collective message type `name`
+pub fn login_read_expect_protocol(version: u8, dir: Dir, name: &str, fl: Flavour, rd: &mut SimReader<'_>, budget: u64) -> Option<LoginOut> {
+    let pv = protocol_version(version)?;
+    match dir {
+        Dir::Client => login_expect_protocol_client(name, pv, fl, rd, budget),
+        Dir::Server => login_expect_protocol_server(name, pv, fl, rd, budget),
+    }
+}
+
 pub fn login_names(version: u8, dir: Dir) -> &'static [&'static str] {
     match (version, dir) {
         (2, Dir::Client) => LOGIN_NAMES_VERSION_2_CLIENT,
